@@ -49,7 +49,12 @@ namespace hp {
     std::string line;
     reset();
     while (std::getline(std::cin, line)) {
-      if (!line.empty() && line[0] == '#') { std::cout << line << "\n"; reset(); continue; }
+      if (!line.empty() && line[0] == '#') {
+        std::cout << line << std::endl;
+        std::cerr << line << std::endl;     // lets the checker attribute sanitizer reports to a history
+        reset();
+        continue;
+      }
       std::vector<std::string> t = split(line);
       std::cout << step(t) << std::endl;   // flush: a crash must not lose earlier lines
     }
